@@ -222,6 +222,26 @@ int main(void) {
 	for (i = 0; i < n_ext; i++) pthread_join(thr[i], NULL);
 	if (tm_wait_ge(&g_senders_done, nsend, 60000)) timeout = 1;
 	TM_LOG(EV_PHASE, 3, 0, 0, 0);
+	if (shutdown_behind_gate == 6) {
+		/* the workers were created a moment ago (STARTING counts as running, so sends are accepted) and the virtual thread
+		 * accepts since tp_create(): shut down before the new threads have looked at the shutdown flag */
+		unsigned k;
+		for (k = 0; k < 40; k++) {
+			rec_t *r = &g_late[k]; int lrc; uint32_t dst = k % ((uint32_t)pool + 1);
+			r->id = ((uint64_t)0xdd << 32) | k; r->dst = dst; r->flags = 0;
+			TM_LOG(EV_SEND_CALL, 0, r->id, dst, 0);
+			lrc = tpt_msg_send(dst == pool ? tp_thread_get_pvt(g_tp) : tp_thread_get(g_tp, dst), NULL, 0, msg_cb, r);
+			TM_LOG(EV_SEND_RET, 0, r->id, dst, lrc);
+			if (lrc == 0) __atomic_add_fetch(&g_ok_sends_late, 1, __ATOMIC_RELAXED);
+		}
+		tp_shutdown(g_tp);
+		tm_wait_ge(&g_late_cb, __atomic_load_n(&g_ok_sends_late, __ATOMIC_RELAXED), 5000);
+		TM_LOG(EV_PHASE, 4, 0, 0, 0);
+		tp_shutdown_wait(g_tp);
+		rc = tp_destroy(g_tp);
+		TM_LOG(EV_PHASE, 5, 0, 0, rc);
+		goto dump;
+	}
 	if (shutdown_behind_gate == 4) {
 		pthread_t lt; struct timespec ts = {0, (long)(tm_rand() % 400000)};
 		pthread_create(&lt, NULL, race_sender, NULL);
